@@ -224,6 +224,30 @@ Proof.
   - intro E. subst. eapply Hinj; eassumption.
 Qed.
 
+(* no orphans: the logger a caller was given is the one registered under its name, so whatever
+   is applied to the registered loggers reaches it *)
+Theorem registry_no_orphan names es s t l :
+  rrun names rinit es = Some s ->
+  r_pc s t = RHave l \/ r_pc s t = RDone l -> lookup (names t) (r_map s) = Some l.
+Proof.
+  intros H Hp. destruct (registry_linearizable names es s H) as (applied & res & Hseq & Hres & _).
+  assert (HSI : SI names [] 0 []).
+  { split; [|split]; cbn; intros; try discriminate; contradiction. }
+  destruct (SI_run names applied _ _ _ _ _ _ HSI Hseq) as (_ & _ & Hacc).
+  apply Hacc. apply Hres. exact Hp.
+Qed.
+
+(* the read-locked fast path without a second look-up under the write lock: two overlapping
+   first look-ups of one name get different loggers and the first one is orphaned *)
+Theorem registry_fastpath_refuted :
+  exists names es s,
+    frun names finit es = Some s /\ names 0 = names 1 /\
+    f_pc s 0 = FDone 0 /\ f_pc s 1 = FDone 1 /\ lookup (names 0) (f_map s) = Some 1.
+Proof.
+  exists (fun _ => 5%Z), [FPeek 0; FPeek 1; FAcq 0; FStore 0; FAcq 1; FStore 1].
+  eexists. split; [vm_compute; reflexivity|]. repeat split; vm_compute; reflexivity.
+Qed.
+
 (* ---------------------------------------------------------------------------------------- *)
 (* byteslicepool *)
 
